@@ -261,6 +261,15 @@ def genC10 (tier : Tier) (seed : Nat) (o : Out) : IO Unit := do
     r := r'
     o.line (encCase "str" .str s)
   o.line (encCase "str" .str [])
+  -- long strings: a multi-byte character straddling every offset near the boundaries of the size encoding (63/64, 16 383/16 384
+  -- bytes) and near the powers of two a chunked copy would use; also plain ASCII of exactly those lengths
+  for bnd in [64, 128, 256, 512, 1024, 2048, 4096, 8192, 16384] do
+    for back in [0, 1, 2, 3, 4] do
+      let pre : Bytes := List.replicate (bnd - back) 0x78
+      o.line (encCase "str-long" .str pre)
+      for cp in [0xE9, 0x20AC, 0x1F600] do
+        o.line (encCase "str-long" .str (pre ++ utf8Of cp ++ [0x7A]))
+        o.line (encCase "str-long" .str (pre ++ utf8Of cp ++ utf8Of cp ++ List.replicate (bnd - 2) 0x79 ++ utf8Of cp))
   for _ in [0:nRand] do
     let (d, r1) := r.below 4
     let (t, r2) := genTy d r1
